@@ -11,6 +11,11 @@ def net(cfg, np_, cases, maxthreads, **params):
     return H("c17_net", cfg, cases, mpi=np_, params=p, env=MPI_ENV, timeout_per_case=90, timeout_base=180)
 
 
+def am(cfg, np_, cases, **params):
+    # part C: active messages (sendMsg / broadcast / sendSimple / broadcastSimple + handleReceives); one thread per host
+    return H("c17_am", cfg, cases, mpi=np_, params=params, env=MPI_ENV, timeout_per_case=90, timeout_base=180)
+
+
 def c17(tier):
     runs = []
     if tier == "quick":
@@ -21,6 +26,12 @@ def c17(tier):
         runs.append(net("dist", 2, 140, 3))
         runs.append(net("dist", 3, 80, 2))
         runs.append(net("dist", 4, 60, 2))
+        # part C: the active-message layer above sendTagged
+        runs.append(am("dist", 1, 60))
+        runs.append(am("dist", 2, 100))
+        runs.append(am("dist", 3, 80))
+        runs.append(am("dist", 4, 80))
+        runs.append(am("dist-asan", 3, 30))
     else:
         runs.append(H("c17_ser", "dist-asan", 60000, params=dict(special_period=1500), timeout_per_case=0.1, timeout_base=300))
         runs.append(H("c17_ser", "dist", 100000, params=dict(special_period=2500), timeout_per_case=0.1, timeout_base=300))
@@ -32,6 +43,9 @@ def c17(tier):
         runs.append(net("dist-asan", 2, 160, 3, maxcount=4000))
         runs.append(net("dist-asan", 3, 100, 2, maxcount=4000))
         runs.append(net("dist-asan", 4, 100, 2, maxcount=4000))
+        for np_ in (1, 2, 3, 4):
+            runs.append(am("dist", np_, 500, maxops=120))
+            runs.append(am("dist-asan", np_, 100, maxops=60))
     return runs
 
 
@@ -41,7 +55,9 @@ SPEC = dict(
               "gSerialize overloads and read back with gDeserialize from receive buffers started at every byte offset 0..15 "
               "(ASan+UBSan build: alignment, bounds, null); (B) under mpirun -np 1..4 the real buffered network layer carries "
               "seed-determined message plans (sendTagged / recieveTagged / flush / getHostBarrier().wait() only, used like Gluon, "
-              "CuSP and libdist/Barrier.cpp) and every receiver re-generates and compares every planned message",
+              "CuSP and libdist/Barrier.cpp) and every receiver re-generates and compares every planned message; (C) the active-message layer "
+              "above it (sendMsg, broadcast with self true/false from every host as root, sendSimple, broadcastSimple, "
+              "handleReceives) carries seed-determined operation lists and every landing-pad invocation is matched against the plan",
     level_text="(A) Round trips held for every type family that Serialize.h can serialise (scalars, trivially copyable structs, "
                "std::pair, std::string, vectors of trivially and non-trivially copyable elements, nested vectors, std::deque, "
                "gdeque, PODResizeableArray, DynamicBitSet, galois::Pair/TupleOfThree, CopyableAtomic/CopyableArray, a type with "
@@ -50,8 +66,11 @@ SPEC = dict(
                "buffer, into fresh and re-used targets, each field consuming exactly the bytes it produced. (B) Every planned "
                "message (1 B .. 8 MB, around the 1400-byte aggregation threshold, up to 1e4 per pair, 1-4 sender threads, 1-2 "
                "receiver threads, self-sends, two interleaved tags, tag wrap-around, with and without host barriers between "
-               "phases) arrived exactly once, byte-identical, in stream order, under the tag polled. Held on the executions "
-               "observed, not all schedules.",
+               "phases) arrived exactly once, byte-identical, in stream order, under the tag polled. (C) Every active "
+               "message (payload 0 B .. 1 MB, around the aggregation threshold, several rounds in flight, 1-4 hosts, every host as "
+               "broadcast root, self-delivery on and off, destination = self included) ran the named landing pad on every "
+               "destination exactly once with the sending host as source and exactly the serialised payload (size checked before "
+               "any byte is read), and nothing else was dispatched. Held on the executions observed, not all schedules.",
     level_note="Trusts: Open MPI (uninstrumented), the /dev/shm block used for barrier stamps and progress counters, x86-TSO. "
                "Only the buffered MPI backend exists in this build (no LCI, no bare-MPI mode). 'message-lost' is a liveness "
                "verdict with a patience window (all senders flushed, receiver polling, no host received anything for 40 s). "
@@ -65,15 +84,27 @@ SPEC = dict(
          "non-trivial iff >=1 byte was produced and all 16 payload alignments were read; distinct by (family, type combination, "
          "record size class). part B: case = 1..5 consecutive phases on np hosts, each phase a seed-determined plan (streams per "
          "(src,dst,tag,sender thread), counts, sizes, sender/receiver thread counts, receive discipline, flush pattern, skew, "
-         "barrier or not); non-trivial iff >=2 phases and >=2 messages; distinct by (mode, np, size classes of the phases, "
+         "barrier or not); non-trivial iff >=2 phases and >=2 messages; part C: case = 1..4 rounds of per-host operation lists "
+         "(form, destination / self flag, payload size and bytes), quota reached after every round or only at the end, optional "
+         "handleReceives() polls between sends and host barriers between rounds; non-trivial iff >=2 landing-pad invocations; "
+         "distinct by (mode, np, rounds, wait discipline, poll period, number of hosts acting as broadcast root, whether empty / "
+         "threshold-sized / >=256 KB payloads occurred); part B is distinct by (mode, np, size classes of the phases, "
          "numbers of multi-threaded-send / multi-threaded-receive / two-tag phases, tag wrap, whether aggregation and phase skew "
          "between hosts were observed)",
     require={"roundtrips": 5000, "alignments_covered": 16, "reused_target_reads": 1000,
              "msgs_received": 20000, "aggregating_cases": 1, "mt_send_phases": 1, "mt_recv_phases": 1, "two_tag_phases": 1,
              "phase_skew_observed": 1, "msgs_under_32B": 1, "msgs_at_threshold": 1, "msgs_1MB_or_more": 1, "host_barriers": 1,
              "tag_wrap_cases": 1, "self_msgs": 1, "buffers_sent_over_threshold": 1, "buffers_sent_on_flush": 1,
-             "net_cases_np1": 1, "net_cases_np2": 1, "net_cases_np3": 1, "net_cases_np4": 1},
-    assumptions=["Open MPI itself is correct (it is the transport, not the code under test) and MPI ranks share one machine "
+             "net_cases_np1": 1, "net_cases_np2": 1, "net_cases_np3": 1, "net_cases_np4": 1,
+             "am_network_deliveries": 5000, "am_self_deliveries": 100, "am_broadcast_deliveries_above_root": 100,
+             "am_broadcast_self_true": 50, "am_broadcast_self_false": 50, "am_sendMsg": 100, "am_sendSimple": 100,
+             "am_broadcastSimple": 50, "am_empty_payloads": 10, "am_payloads_at_threshold": 10, "am_payloads_256KB_or_more": 5,
+             "am_cases_all_hosts_root": 3, "am_cases_np1": 1, "am_cases_np2": 1, "am_cases_np3": 1, "am_cases_np4": 1},
+    assumptions=["active messages: landing pads travel as raw function addresses, so the c17_am executable is linked -no-pie and the "
+                 "ranks compare pad addresses before the first case; each host issues its operations from one thread, so the k-th "
+                 "invocation from a source is the k-th operation of that source addressed to this host (FIFO per pair and tag is "
+                 "part of the statement); only handleReceives() is used to drain tag 0",
+                 "Open MPI itself is correct (it is the transport, not the code under test) and MPI ranks share one machine "
                  "(shared-memory BTL), so network-level reordering/loss can only come from Galois' own queues and threads",
                  "barrier stamps and progress counters travel through a /dev/shm block (cross-process atomics, x86-TSO)",
                  "tags are consumed in phase order on every host (a receive queue exposes only the tag at its head; polling an "
